@@ -29,7 +29,7 @@ CLAIMS = {
         note="Equal created_at at one address and the relation between a d-less addressable event and the d=\"\" event of the same author are unclaimed; flag of ephemeral events unclaimed.",
         technique="explicit-state model checking with step-wise refinement check against a specification relation", design="DESIGN.md §4 C03-C05"),
     "C05": dict(engine="seqx", category="model_checking",
-        text="Same exploration as C03; step oracle for deletion requests (exactly the author's referenced events leave, re-insertion blocked while the request is retained, request itself listed) plus an author-projection differential check: no event of one author is removed, replaced or refused because of another author's event, except by eviction. The concurrent cache part of C15 also runs here (an event must never be served together with a retained deletion request of its author referencing it, whatever the interleaving of the two insertions).",
+        text="Same exploration as C03; step oracle for deletion requests (exactly the author's referenced events leave, re-insertion blocked while the request is retained, request itself listed) (deletion requests before/after their targets, backdated ones older than their target and than everything retained) plus an author-projection differential check: no event of one author is removed, replaced or refused because of another author's event, except by eviction. The concurrent cache part of C15 also runs here (an event must never be served together with a retained deletion request of its author referencing it, whatever the interleaving of the two insertions).",
         note="a references to plain replaceable kinds are unclaimed (negative claims only), as the property states.",
         technique="explicit-state model checking with step-wise refinement check and differential (author projection) oracle", design="DESIGN.md §4 C03-C05"),
     "C06": dict(engine="seqx", category="model_checking",
@@ -41,11 +41,11 @@ CLAIMS = {
         note="A delivery may be missing only if >= buflen other deliveries to that connection were unread; connections ended by the environment may lose queued deliveries (unclaimed).",
         technique=E1_TECH, design="DESIGN.md §4 C07"),
     "C08": dict(engine="vsched", category="model_checking",
-        text="All schedules of one real MergeHandler session over scripted REQ children (7 behaviours: stored+EOSE, EOSE+live, unsorted, non-matching, duplicate-of-sibling, EOSE-only, late-EOSE) for every pair of behaviours x 4 client scripts x filter sets; unbounded (complete up to state caching) within a per-job budget, otherwise complete up to a delay bound; oracle on the client stream: one EOSE after all children, ordered de-duplicated matching limited stream before, live events forwarded unchanged in child order after.",
+        text="All schedules of one real MergeHandler session over scripted REQ children (7 behaviours: stored+EOSE, EOSE+live, unsorted, non-matching, duplicate-of-sibling, EOSE-only, late-EOSE) for every pair of behaviours x 4 client scripts x filter sets; unbounded (complete up to state caching) within a per-job budget, otherwise complete up to a delay bound; oracle on the client stream: one EOSE after all children, ordered de-duplicated matching limited stream before, live events forwarded unchanged in child order after. Two sessions on ONE merge handler using the same subscription id at once (7 behaviour pairs x 2 scripts x 2 filter sets, delay-bounded): each session is judged by the single-session oracle.",
         note="Events a child sends between its own EOSE and the merged EOSE are unclaimed; histories do not re-issue an id before its EOSE (the property's quantifier).",
         technique=E1_TECH, design="DESIGN.md §4 C08"),
     "C09": dict(engine="vsched", category="model_checking",
-        text="All schedules (unbounded, complete up to happens-before state caching) of one real MergeHandler session over 2-3 scripted children, for every verdict table (accept / three kinds of rejection per child), count table and 7 client scripts including repeated ids in flight; oracle: one OK per EVENT with the right id, verdict and leading reason, one COUNT reply with the maximum.",
+        text="All schedules (unbounded, complete up to happens-before state caching) of one real MergeHandler session over 2-3 scripted children, for every verdict table (accept with and without a text / three kinds of rejection / reject-only-the-first / accept-only-the-first per child), count table and 7 client scripts including repeated ids in flight; oracle: one OK per EVENT with the right id, verdict and leading reason, one COUNT reply with the maximum.",
         note="Scheduling points are synchronisation operations; sound for data-race-free code. Children are scripted stubs that honour the property's premise (one reply per request). Harness sizes: one session (two sessions for the same-id-in-flight jobs), <= 3 children, <= 3 requests.",
         technique=E1_TECH, design="DESIGN.md §4 C09"),
     "C12": dict(engine="wsx", category="exploration",
@@ -78,7 +78,7 @@ CLAIMS = {
         technique=ENUM_TECH, design="DESIGN.md §4 C11"),
     "C17": dict(engine="vsched", category="model_checking",
         text="Each of 10 limit middlewares x limit L x probe message (kind x size 0..L+2, including 'absent' and 'only the second filter offends') between bystander messages, around a recording stub that also emits all seven server message types: all schedules; all ordered pairs of two middlewares on a 7-message script: all schedules; the NIP-11 chain for all 128 subsets of the seven limits plus nil document and a document without limitation block on a 14-message script (unbounded for chains of depth <= 1, delay-bounded for deeper ones). Oracle: forwarded unchanged (pointer-identical) iff within the limit, else exactly one rejection of the right type and nothing forwarded; bystanders and server messages unchanged and in order; identity when nothing is set.",
-        note="created_at windows are judged against a virtual clock and claimed only at >= 2 s from the boundary; an over-long CLOSE id is unclaimed.",
+        note="created_at windows are judged against a virtual clock and claimed only at >= 2 s from the boundary; an over-long CLOSE id is unclaimed; a subscription id that is within the limit counted in characters and over it counted in bytes is unclaimed (the statement does not fix the unit): it must be cleanly forwarded or cleanly rejected.",
         technique=E1_TECH, design="DESIGN.md §4 C17"),
     "C18": dict(engine="vsched", category="model_checking",
         text="All client histories up to length 5/6 over {REQ a,b,c; CLOSE a,b} through the real MaxSubscriptions wrapper for N=1,2(,3), all EVENT-id histories up to length 5/6 over 3 ids through the real receive- and send-side unique filters for window 1,2, each on all schedules (unbounded with state caching), against a set model and a last-size-distinct model (three-valued); two sessions on one middleware value with colliding ids - concurrently, and one after the other has ended: all schedules, each session's outcome equals its outcome alone.",
@@ -86,7 +86,7 @@ CLAIMS = {
         technique=E1_TECH, design="DESIGN.md §4 C18"),
     "C19": dict(engine="vsched", category="model_checking",
         text="All single-session client histories up to length 3/4 over 9 symbols (REQ a/b/x/live, CLOSE a/x, EVENT kind 1/7, COUNT) through the real Prometheus middleware including teardown by an environment canceller at every cut point (unbounded), and 10 two-session script pairs x 4 endings within delay bounds; at every quiescence: both streams unaltered and in order, connection gauge = live sessions, subscription gauge explained by some merge of the REQ/CLOSE and CLOSED sequences and released at session end, per-type and per-kind counters = messages that crossed.",
-        note="Metrics are read with Registry.Gather() at quiescence only; messages a session takes after its context is cancelled are held to 'in-order subsequence'.",
+        note="Metrics are read with Registry.Gather() at quiescence only; messages a session takes after its context is cancelled are held to 'in-order subsequence'. Every harness session carries an HTTP upgrade request in its context as a session served by Relay does; all sessions carry an equal one (same peer address, proxy headers, request id).",
         technique=E1_TECH, design="DESIGN.md §4 C19"),
     "C20": dict(engine="seqx", category="exploration",
         text="Product of Upgrade/Accept/method/path/mux configurations through ServeMux.ServeHTTP on a ResponseRecorder (relay path recognised by equality with Relay.ServeHTTP's own answer), and NIP-11 documents (2^16 present/absent product plus targeted structured values; kind ranges as numbers and pairs) through Marshal/Unmarshal and the HTTP handlers.",
